@@ -42,6 +42,7 @@ type Result struct {
 	Stubs        map[string]bool
 	Inconclusive []string
 	Samples      []PathSample
+	Conformed    int // completed sample paths whose native re-run agreed with the interpreter
 	MaxThreads   int
 	SchedPoints  int
 	Complete     bool // worklist exhausted within budgets
@@ -169,6 +170,7 @@ func (e *Engine) explore(deadline time.Time) *Result {
 	active := 0
 	stop := false
 	inconcSeen := map[string]bool{}
+	nextSample := 8
 	workers := e.cfg.Workers
 	if workers < 1 {
 		workers = 1
@@ -217,7 +219,11 @@ func (e *Engine) explore(deadline time.Time) *Result {
 				prefix := work[len(work)-1]
 				work = work[:len(work)-1]
 				active++
-				wantSample := len(res.Samples) < 6
+				// samples: the first few paths, then geometrically spaced ones (so that they are spread over the tree)
+				wantSample := len(res.Samples) < 6 || (res.Paths >= nextSample && len(res.Samples) < 6+e.cfg.Conform)
+				if wantSample && len(res.Samples) >= 6 {
+					nextSample = res.Paths + 1 + res.Paths/4
+				}
 				mu.Unlock()
 
 				pr := e.runPath(sol, prefix, wantSample)
@@ -248,7 +254,7 @@ func (e *Engine) explore(deadline time.Time) *Result {
 				for s := range pr.stubs {
 					res.Stubs[s] = true
 				}
-				if pr.sample != nil && len(res.Samples) < 6 {
+				if pr.sample != nil && len(res.Samples) < 6+e.cfg.Conform {
 					res.Samples = append(res.Samples, *pr.sample)
 				}
 				for _, v := range pr.violations {
